@@ -27,7 +27,7 @@ func (r *Run) frameItems(env *SpecEnv, fc *FuncContract) []frameItem {
 			defer func() {
 				if x := recover(); x != nil {
 					if se, ok := x.(specErr); ok {
-						panic(execErr{fmt.Sprintf("modifies %q: %s", fc.ModSrc[i], se.msg)})
+						panic(execErr{msg: fmt.Sprintf("modifies %q: %s", fc.ModSrc[i], se.msg)})
 					}
 					panic(x)
 				}
